@@ -1,10 +1,10 @@
 package simkit
 
 import (
-	"strconv"
 	"fmt"
 	"runtime"
 	"runtime/debug"
+	"strconv"
 	"strings"
 	"sync"
 	"sync/atomic"
@@ -48,16 +48,16 @@ type Env struct {
 	S *Sched
 	R *Rand
 
-	mu     sync.Mutex
-	viol   *Violation
-	probes map[string]int
-	faults map[string]int
-	events []string
-	ehash  uint64
-	wg     sync.WaitGroup
-	t0     time.Time
-	infra  string
-	limit  *time.Timer
+	mu      sync.Mutex
+	viol    *Violation
+	probes  map[string]int
+	faults  map[string]int
+	events  []string
+	ehash   uint64
+	wg      sync.WaitGroup
+	t0      time.Time
+	infra   string
+	limit   *time.Timer
 	cleanup []func()
 	panics  []string
 }
